@@ -16,6 +16,8 @@ DECIDED = ('(a) every file-opening call in static_stream.py is enumerated; (b) e
            'normalising lexically this gives: every opened path has the normalised root directory as a proper ancestor.')
 DECIDED_R6 = ('Round 6: test tables and a None sentinel of a locating helper are normalised away; containment is a prefix test against root + separator.')
 DECIDED = DECIDED + ' ' + DECIDED_R6
+DECIDED_R7 = ('Round 7: all() / any() over literal tuples of tests and walrus forms are normalised away.')
+DECIDED = DECIDED + ' ' + DECIDED_R7
 NOT_DECIDED = 'symlinks inside the root (outside the statement\'s "normalised location"); behaviour of os.path itself.'
 ASSUMPTIONS = ['os.path.abspath normalises "."/".."/repeated separators lexically and returns no trailing separator',
                'os.path.join(root, x) with x stripped of leading separators stays relative to root']
